@@ -497,6 +497,32 @@ decls! {
     gen = |r| if r.chance(1, 4) { None } else { Some(gen_int(r, 0, 9, 0, 255) as u8) };
     corpus = vec![None, Some(0), Some(9), Some(10), Some(255)];
 
+    // unit, optional text, nested option, sequence of pairs: inner values whose encodings are
+    // "nothing", null, or a container (formats treat these specially)
+    #[nutype(derive(Debug, Clone, Serialize, Deserialize))]
+    struct Nothing(());
+    family = "other"; validated = false; core = false;
+    gen = |_r| ();
+    corpus = vec![()];
+
+    #[nutype(sanitize(with = |o: Option<String>| o.map(|s| s.trim().to_string()).filter(|s| !s.is_empty())), derive(Debug, Clone, Serialize, Deserialize))]
+    struct MaybeText(Option<String>);
+    family = "other"; validated = false; core = false;
+    gen = |r| if r.chance(1, 3) { None } else { Some(gen_string(r, 4)) };
+    corpus = vec![None, Some(String::new()), Some(" a ".to_string()), Some("x".to_string())];
+
+    #[nutype(validate(predicate = |o| !matches!(o, Some(None))), derive(Debug, Clone, Serialize, Deserialize))]
+    struct NestedOpt(Option<Option<u8>>);
+    family = "other"; validated = true; core = false;
+    gen = |r| match r.below(3) { 0 => None, 1 => Some(None), _ => Some(Some(r.below(256) as u8)) };
+    corpus = vec![None, Some(None), Some(Some(0)), Some(Some(255))];
+
+    #[nutype(validate(predicate = |v| v.len() <= 3), derive(Debug, Clone, Serialize, Deserialize))]
+    struct FewPairs(Vec<(u8, String)>);
+    family = "other"; validated = true; core = false;
+    gen = |r| (0..r.below(5)).map(|_| (r.below(256) as u8, gen_string(r, 3))).collect();
+    corpus = vec![vec![], vec![(0, String::new())], vec![(1, "a".to_string()), (2, "b".to_string()), (3, "c".to_string()), (4, "d".to_string())]];
+
     #[nutype(validate(predicate = |b| *b), derive(Debug, Clone, Serialize, Deserialize))]
     struct MustBeTrue(bool);
     family = "other"; validated = true; core = true;
